@@ -285,6 +285,10 @@ theorem onePlace_step {s s' : St} {w : Who} (hinv : OnePlace s) (hstep : step s 
       subst hstep
       exact hinv
     · simp at hstep
+  | cancel i =>
+    simp only [step, Option.some.injEq] at hstep
+    subst hstep
+    exact hinv
 
 theorem onePlace_next {s : St} (w : Who) (hinv : OnePlace s) : OnePlace (next s w) := by
   unfold next
